@@ -10,7 +10,7 @@ PROPS["C11"] = {
                   "differential testing only; the external crc64 module is compared, not proved.",
     "rule": "digest: random byte strings (0..2000 bytes) under random chunkings incl. empty writes, three CRC implementations; "
             "verify: emitted DUMP payloads, EVERY single-byte substitution (255 values x every position) of generated payloads, "
-            "every truncation, a version-field sweep with matching checksum, random strings; footer: intact and byte-flipped. "
+            "every truncation, a version-field sweep with matching checksum, random strings; footer: intact and byte-flipped, also delivered to the loader in pieces (short reads, byte by byte, data with EOF, empty reads). "
             "non-trivial = every case except random-noise verify inputs shorter than 10 bytes; distinct by case text",
     "nontrivial": lambda c, i: not (c.startswith("verify") and len(c.split()[1]) < 20),
     "trusted": ["external module github.com/cupcake/rdb/crc64 (used by CheckVersionChecksum) is modelled by the bitwise spec and compared on every digest case",
